@@ -12,6 +12,7 @@ import (
 	"net"
 	"net/http"
 	"net/http/httptest"
+	"net/textproto"
 	"strconv"
 	"strings"
 	"sync"
@@ -117,6 +118,46 @@ func ParseScript(s string) (Script, error) {
 	return sc, nil
 }
 
+// Truth is what the script delivers to an HTTP/1.1 client (ground truth handed to the Spec):
+//
+//	r<st>   a complete response with status st
+//	rb<st>  the head of a response with status st, then the body breaks off
+//	rbx<st> same, broken by a TCP reset (a client may also lose the head: then it is `f`)
+//	f       no response
+func (sc Script) Truth() string {
+	switch sc.Act {
+	case "close", "reset", "hang", "garbage", "badhdr":
+		return "f"
+	}
+	st := sc.Status
+	if st/100 == 1 && st != 101 {
+		// to a client a "final" 1xx is an interim response; it then waits for the real one and meets EOF
+		return "f"
+	}
+	r := fmt.Sprintf("r%d", st)
+	if st/100 == 1 || st == 204 || st == 304 {
+		return r
+	}
+	if sc.Act == "nolen" {
+		return r
+	}
+	decl := len(sc.Body)
+	if sc.DeclLen >= 0 {
+		decl = sc.DeclLen
+	}
+	sent := len(sc.Body)
+	if sc.Act == "midreset" || sc.Act == "midclose" {
+		sent = len(sc.Body) / 2
+	}
+	if sent < decl {
+		if sc.Act == "midreset" {
+			return fmt.Sprintf("rbx%d", st)
+		}
+		return fmt.Sprintf("rb%d", st)
+	}
+	return r
+}
+
 // Target is a raw TCP HTTP/1.1 target: full control over status line, headers, truncation and resets.
 type Target struct {
 	l      net.Listener
@@ -162,6 +203,36 @@ func (t *Target) serve() {
 	}
 }
 
+// rawReq is the little the scripted target needs from a request. The request target is NOT validated (a gun may send
+// `GET noslash/a HTTP/1.1`; a strict parser would drop the connection, which is not what the script says).
+type rawReq struct {
+	Method string
+	Target string
+	Header textproto.MIMEHeader
+}
+
+func readRequestLenient(br *bufio.Reader) (*rawReq, error) {
+	tp := textproto.NewReader(br)
+	line, err := tp.ReadLine()
+	if err != nil {
+		return nil, err
+	}
+	f := strings.SplitN(line, " ", 3)
+	if len(f) < 2 {
+		return nil, fmt.Errorf("bad request line")
+	}
+	h, err := tp.ReadMIMEHeader()
+	if err != nil {
+		return nil, err
+	}
+	if n, err := strconv.Atoi(h.Get("Content-Length")); err == nil && n > 0 {
+		if _, err := io.CopyN(io.Discard, br, int64(n)); err != nil {
+			return nil, err
+		}
+	}
+	return &rawReq{Method: f[0], Target: f[1], Header: h}, nil
+}
+
 func rst(c net.Conn) {
 	if tc, ok := c.(*net.TCPConn); ok {
 		_ = tc.SetLinger(0)
@@ -174,11 +245,15 @@ func (t *Target) handle(c net.Conn) {
 	br := bufio.NewReader(c)
 	for {
 		_ = c.SetReadDeadline(time.Now().Add(30 * time.Second))
-		req, err := http.ReadRequest(br)
+		req, err := readRequestLenient(br)
 		if err != nil {
 			return
 		}
-		_, _ = io.Copy(io.Discard, req.Body)
+		if req.Method == "CONNECT" {
+			// the connect gun opens a tunnel first; the scripted exchange follows on the same connection
+			_, _ = io.WriteString(c, "HTTP/1.1 200 Connection established\r\n\r\n")
+			continue
+		}
 		t.Hits.Add(1)
 		sc, err := ParseScript(req.Header.Get("X-Script"))
 		if err != nil {
@@ -231,7 +306,7 @@ func (t *Target) handle(c net.Conn) {
 		_, _ = c.Write(b.Bytes())
 		if sc.Act == "midreset" {
 			// give the client a moment to read the headers, then reset
-			time.Sleep(30 * time.Millisecond)
+			time.Sleep(150 * time.Millisecond)
 			rst(c)
 		}
 		return // one exchange per connection ("Connection: close")
